@@ -91,6 +91,11 @@ func genWSDialCase(r *simrt.Rand, tier string) *WSDialCase {
 		p := WSDialConn{Async: r.Bool(0.4), CliWriters: lens(), SrvWriters: lens(), SrvOpenMsgs: r.Pick(0, 0, 1, 3), CliOpenMsgs: r.Pick(0, 0, 1, 2),
 			HandlerYields: r.Pick(0, 1, 3), EarlyAfter: r.Pick(0, 1, 2)}
 		p.End = r.PickS("none", "cli-close", "srv-close", "cli-closeframe", "srv-closeframe", "cli-early", "srv-early")
+		if r.Bool(0.12) {
+			// the application ends the connection inside its own open callback, which then goes on
+			// for a moment: the close callback must still come, once
+			p.End = r.PickS("cli-inopen", "srv-inopen")
+		}
 		c.Conns = append(c.Conns, p)
 	}
 	return c
@@ -397,11 +402,25 @@ func runWSDial(t *testing.T, ci interface{}, trace bool) *common.Outcome {
 			conns[i] = cs
 			su := websocket.NewUpgrader()
 			su.Engine = eng
-			hooks(su, cs.srv, plan.HandlerYields, "server", openMsgs(i, "S", cs.srv, plan.SrvOpenMsgs))
+			closeIn := func(e *wsEnd, f func(wc *websocket.Conn)) func(wc *websocket.Conn) {
+				return func(wc *websocket.Conn) {
+					f(wc)
+					e.closedByApp = true
+					wc.Close()
+				}
+			}
+			sOpen, cOpen := openMsgs(i, "S", cs.srv, plan.SrvOpenMsgs), openMsgs(i, "C", cs.cli, plan.CliOpenMsgs)
+			switch plan.End {
+			case "srv-inopen":
+				sOpen = closeIn(cs.srv, sOpen)
+			case "cli-inopen":
+				cOpen = closeIn(cs.cli, cOpen)
+			}
+			hooks(su, cs.srv, plan.HandlerYields, "server", sOpen)
 			srvUps[i] = su
 			cu := websocket.NewUpgrader()
 			cu.Engine = ceng
-			hooks(cu, cs.cli, plan.HandlerYields, "client", openMsgs(i, "C", cs.cli, plan.CliOpenMsgs))
+			hooks(cu, cs.cli, plan.HandlerYields, "client", cOpen)
 			d := &websocket.Dialer{Engine: ceng, Upgrader: cu, DialTimeout: time.Duration(c.DialMs) * time.Millisecond}
 			url := "ws://127.0.0.1:8080/ws"
 			if c.TLS {
@@ -442,6 +461,16 @@ func runWSDial(t *testing.T, ci interface{}, trace bool) *common.Outcome {
 					// (the simulated clock may jump; a handshake that runs into its own timeout is legal)
 					o.Probe("dial_timed_out")
 					cs.plan.End = "timeout"
+					return
+				}
+				if cs.dialErr != nil && plan.End == "srv-inopen" {
+					// the server ended the connection inside its open callback, i.e. while the upgrade
+					// was still under way: the 101 may never have left. Only the server side is judged.
+					o.Probe("dial_failed_because_server_closed_in_open")
+					cs.plan.End = "timeout"
+					if cs.srv.opens > 0 && !simrt.WaitStuck("srv-close", 3*time.Second, func() bool { return cs.srv.closes > 0 }) {
+						fail("close-callback-count", class+"/server/srv-inopen", "server %d closed the connection inside its open callback but its close callback never ran; log: %v", i, cs.srv.events)
+					}
 					return
 				}
 				if cs.dialErr != nil {
@@ -514,7 +543,7 @@ func runWSDial(t *testing.T, ci interface{}, trace bool) *common.Outcome {
 			if cs.plan.End == "timeout" {
 				continue
 			}
-			early := strings.HasSuffix(cs.plan.End, "-early")
+			early := strings.HasSuffix(cs.plan.End, "-early") || strings.HasSuffix(cs.plan.End, "-inopen")
 			for _, pair := range [][2]*wsEnd{{cs.cli, cs.srv}, {cs.srv, cs.cli}} {
 				e, other := pair[0], pair[1]
 				side := strings.Fields(e.name)[0]
